@@ -105,6 +105,7 @@ type pendW struct {
 	s    string
 	v    int
 	c    string // the writing client feature
+	ack  bool
 }
 
 type regModel struct {
@@ -261,6 +262,13 @@ func newRegWorldG(events, approval, nested, generic bool) *regWorld {
 
 //go:norace
 func (rw *regWorld) addPend(m *api.Message) { rw.pendMsgs = append(rw.pendMsgs, m) }
+
+//go:norace
+func (rw *regWorld) takePend() []*api.Message {
+	m := rw.pendMsgs
+	rw.pendMsgs = nil
+	return m
+}
 
 func (rw *regWorld) local(s string) api.FeatureLocalInterface {
 	sv := serverVars[s]
@@ -780,7 +788,7 @@ func (rw *regWorld) apply(op string, judge bool) (viol []string, digest string, 
 		pending := accept && rw.approval
 		switch {
 		case pending:
-			m.pend = append(m.pend, pendW{p, uint64(*d.Header.MsgCounter), s, v, c})
+			m.pend = append(m.pend, pendW{p, uint64(*d.Header.MsgCounter), s, v, c, ack})
 		case accept:
 			effect = true
 			m.data[s] = v
@@ -936,6 +944,29 @@ func (rw *regWorld) apply(op string, judge bool) (viol []string, digest string, 
 					_, _ = lf.BindToRemote(ra)
 				}
 				m.lbinds[k] = true
+			}
+		}
+	case "appr":
+		// the application approves every write it was shown and has not answered yet — in the order they were shown,
+		// including writes the stack dropped meanwhile (the application does not know): only those still waiting are
+		// applied, each acknowledged on its own connection and announced to the subscribers
+		msgs := rw.takePend()
+		for _, pw := range m.pend {
+			effect = true
+			m.data[pw.s] = pw.v
+			exp = append(exp, rw.fanout(pw.s, false)...)
+			expEv[fmt.Sprint(api.EventTypeDataChange, api.ElementChangeUpdate)]++
+			if pw.ack {
+				exp = append(exp, expOut{conn: cn(pw.peer), class: "result", ref: int64(pw.ctr), err: 0})
+			}
+		}
+		m.pend = nil
+		for _, msg := range msgs {
+			if msg.RequestHeader == nil || msg.RequestHeader.AddressDestination == nil {
+				continue
+			}
+			if fl := w.L.FeatureByAddress(msg.RequestHeader.AddressDestination); fl != nil {
+				fl.ApproveOrDenyWrite(msg, model.ErrorType{ErrorNumber: 0})
 			}
 		}
 	case "fire":
